@@ -8,7 +8,9 @@ from props._util import rng_for, run_cases
 LEVEL = "other"
 DEDUCTIVE = [
     # the residue-level reader's per-line decode (contract of contracts/parser_c.py, also a target of C08)
-    {"module": "rnapolis.parser", "sidecar": "contracts.parser_c", "targets": ["parse_pdb@decode", "lemma:record_names", "lemma:decoded_snoc"]},
+    {"module": "rnapolis.parser", "sidecar": "contracts.parser_c", "targets": ["parse_pdb@decode", "lemma:record_names", "lemma:decoded_snoc",
+                                                                               # the duplicate / clash filter both legs of the residue-level reader end in (callee of the decode contracts)
+                                                                               "filter_clashing_atoms", "filter_clashing_atoms@single"]},
     # the table-level reader's per-line decode (prefix contract up to the DataFrame construction)
     {"module": "rnapolis.parser_v2", "sidecar": "contracts.parser_v2_c", "targets": ["parse_pdb_atoms@decode", "lemma:decoded_v2_snoc"],
      "opts": {"z3_probe_ms": 400, "cvc5_probe_s": 6}},
